@@ -1026,3 +1026,144 @@ impl<P: Protocol> GenericCloud<MockDevice, P, MockSocket, MockTimeSource> {
         self.socket.address().unwrap().port() as usize
     }
 }
+
+#[cfg(dswd_vpncloud_verif)]
+pub mod verif {
+    //! Verification hooks (accessors and read-only views for mock-backed nodes).
+    //! Compiled only with --cfg dswd_vpncloud_verif.
+    use super::*;
+    use crate::{crypto::verif::PeerCryptoView, device::MockDevice, net::MockSocket, util::MockTimeSource};
+
+    #[derive(Clone, Debug, PartialEq, Eq, Hash)]
+    pub struct PeerView {
+        pub addr: SocketAddr,
+        pub addrs: Vec<SocketAddr>,
+        pub last_seen: Time,
+        pub timeout: Time,
+        pub peer_timeout: u16,
+        pub node_id: NodeId,
+        pub crypto: PeerCryptoView,
+    }
+
+    #[derive(Clone, Debug, PartialEq, Eq, Hash)]
+    pub struct ReconnectView {
+        pub address: Option<(String, Time)>,
+        pub resolved: Vec<SocketAddr>,
+        pub tries: u16,
+        pub timeout: u16,
+        pub next: Time,
+        pub final_timeout: Option<Time>,
+    }
+
+    impl<P: Protocol> GenericCloud<MockDevice, P, MockSocket, MockTimeSource> {
+        pub fn verif_socket(&mut self) -> &mut MockSocket {
+            &mut self.socket
+        }
+
+        pub fn verif_device(&mut self) -> &mut MockDevice {
+            &mut self.device
+        }
+
+        /// One iteration of the event loop's socket branch (the datagram must have been queued on the mock socket).
+        pub fn verif_socket_event(&mut self) {
+            let mut buffer = MsgBuffer::new(SPACE_BEFORE);
+            self.handle_socket_event(&mut buffer);
+        }
+
+        /// One iteration of the event loop's device branch (the frame must have been queued on the mock device).
+        pub fn verif_device_event(&mut self) {
+            let mut buffer = MsgBuffer::new(SPACE_BEFORE);
+            self.handle_device_event(&mut buffer);
+        }
+
+        /// Like `verif_device_event` but returns the result that the event loop only logs.
+        pub fn verif_device_event_result(&mut self) -> Result<(), Error> {
+            let mut buffer = MsgBuffer::new(SPACE_BEFORE);
+            self.device.read(&mut buffer)?;
+            self.handle_interface_data(&mut buffer)
+        }
+
+        pub fn verif_housekeep(&mut self) -> Result<(), Error> {
+            self.housekeep()
+        }
+
+        pub fn verif_is_connected(&self, addr: &SocketAddr) -> bool {
+            self.peers.contains_key(addr)
+        }
+
+        pub fn verif_node_id(&self) -> NodeId {
+            self.node_id
+        }
+
+        pub fn verif_own_addresses(&self) -> Vec<SocketAddr> {
+            self.own_addresses.to_vec()
+        }
+
+        /// Peers sorted by address.
+        pub fn verif_peers(&self) -> Vec<PeerView> {
+            let mut v: Vec<_> = self
+                .peers
+                .iter()
+                .map(|(addr, p)| PeerView {
+                    addr: *addr,
+                    addrs: p.addrs.to_vec(),
+                    last_seen: p.last_seen,
+                    timeout: p.timeout,
+                    peer_timeout: p.peer_timeout,
+                    node_id: p.node_id,
+                    crypto: p.crypto.verif_state(),
+                })
+                .collect();
+            v.sort_by_key(|p| p.addr);
+            v
+        }
+
+        /// Pending handshakes sorted by address.
+        pub fn verif_pending(&self) -> Vec<(SocketAddr, PeerCryptoView)> {
+            let mut v: Vec<_> = self.pending_inits.iter().map(|(a, c)| (*a, c.verif_state())).collect();
+            v.sort_by_key(|p| p.0);
+            v
+        }
+
+        pub fn verif_reconnect(&self) -> Vec<ReconnectView> {
+            self.reconnect_peers
+                .iter()
+                .map(|e| ReconnectView {
+                    address: e.address.clone(),
+                    resolved: e.resolved.to_vec(),
+                    tries: e.tries,
+                    timeout: e.timeout,
+                    next: e.next,
+                    final_timeout: e.final_timeout,
+                })
+                .collect()
+        }
+
+        pub fn verif_next_peers(&self) -> Time {
+            self.next_peers
+        }
+
+        pub fn verif_update_freq(&self) -> u16 {
+            self.update_freq
+        }
+
+        pub fn verif_table(&self) -> &ClaimTable<MockTimeSource> {
+            &self.table
+        }
+
+        /// Totals: (invalid protocol packets, invalid protocol bytes, dropped payload packets, dropped payload bytes)
+        pub fn verif_dropped(&self) -> (usize, u64, usize, u64) {
+            let d = &self.traffic.dropped;
+            (
+                d.in_packets_total + d.in_packets,
+                d.in_bytes_total + d.in_bytes,
+                d.out_packets_total + d.out_packets,
+                d.out_bytes_total + d.out_bytes,
+            )
+        }
+
+        pub fn verif_crypto(&self) -> &Crypto {
+            &self.crypto
+        }
+    }
+}
